@@ -283,7 +283,7 @@ class Run(object):
             return
         was = L.closed
         closer = L.ffi
-        if via:
+        if via % 10:
             # dlclose() does not need the ffi that opened the library: any ffi of the same mode will do
             if L.mode.startswith('inline'):
                 others = [l.ffi for l in self.libs if l.mode.startswith('inline') and l.ffi is not L.ffi]
@@ -291,12 +291,28 @@ class Run(object):
             else:
                 closer = self.check.backend.FFI()
             self.out.probe('closed_through_another_ffi_object')
+        failos = False
+        if via >= 10 and not was:
+            # fault: the operating system reports a failure for this dlclose().  The call may raise; the
+            # library object must be closed all the same (its handle has been given to dlclose() once)
+            failos = True
+            self.check.v_dlclose_fail.value = 1
         try:
             closer.dlclose(L.lib)
         except Exception as e:
+            if failos:
+                self.check.v_dlclose_fail.value = 0
+                self.out.fault('os_dlclose_reports_failure')
+                self.out.probe('failing_dlclose_raised')
+                L.closed = True
+                return
             if was:
                 raise Violation('C37.3', 'closing an already closed %s library raised %r' % (L.mode, e))
             raise Violation('C37.3', 'dlclose() of an open %s library raised %r' % (L.mode, e))
+        if failos:
+            if self.check.v_dlclose_fail.value == 0:
+                self.out.fault('os_dlclose_reports_failure')
+            self.check.v_dlclose_fail.value = 0
         if was:
             self.out.probe('double_close')
         else:
@@ -416,6 +432,7 @@ class C37(core.Check):
         self.shim = ctypes.PyDLL(_cffi_backend.__file__)
         self.v_dl_n = ctypes.c_long.in_dll(self.shim, 'cffi_verif_dl_n')
         self.v_dl_log = (DlEv * 4096).in_dll(self.shim, 'cffi_verif_dl_log')
+        self.v_dlclose_fail = ctypes.c_long.in_dll(self.shim, 'cffi_verif_dlclose_fail')
 
     def generate(self, rng, idx, tier):
         modes = ['inline', 'inline', 'inline2', 'module', 'module', 'inline_handle', 'module_handle']
@@ -435,7 +452,10 @@ class C37(core.Check):
             elif n == 'addressof':
                 ops.append(['addressof', k, rng.choice(VARS + FUNCS)])
             elif n == 'close':
-                ops.append([n, k, rng.randint(1, 4) if rng.chance(0.3) else 0])
+                via = rng.randint(1, 4) if rng.chance(0.3) else 0
+                if rng.chance(0.12):
+                    via += 10          # the OS-level dlclose() reports a failure
+                ops.append([n, k, via])
             elif n in ('const', 'dir', 'droplib'):
                 ops.append([n, k])
             else:
